@@ -1,4 +1,5 @@
 HARNESS = "c10"
+STALE_RERUN = True   # operands also re-run as stale external polynomials (see check)
 LEVEL = "translation_validation"
 """C10 case generator: sign / value / constraint truth of a polynomial under a total assignment.
 
